@@ -29,3 +29,4 @@ pub mod c21;
 pub mod c23;
 pub mod c27;
 pub mod c14;
+pub mod c01;
